@@ -226,6 +226,9 @@ def solo_steps(cfg, req, gran):
     """Number of yield points of one request served alone (calibration for
     the generator; generation is a function of the seed and the code)."""
     key = (canon(cfg), req['kind'], req.get('accept'), gran)
+    # (calibrated without per-request extras such as a recycled environ: the table must not depend on which request of a
+    # kind this process happened to see first)
+    req = dict((k, v) for k, v in req.items() if k != 'recycled')
     if key not in _CAL:
         # an application of its own: calibration must not touch the ones the runs are judged on
         ck = canon(cfg)
@@ -646,7 +649,7 @@ class C12(Check):
             res.probe('switch-in-sinter' if sw[3] in ('next', 'process_request') else 'switch-in-clastic')
         res.ev('plan', plan.get('mode'), [r['kind'] for r in reqs], plan.get('hot_funcs'), 'cold' if cold else 'warm')
         res.ev('run', plan['granularity'], 'threads', len(reqs), 'steps', sched.steps,
-               'switches', len(sched.switches), 'inter', inter)
+               'switches', len(sched.switches), 'inter', inter, 'first', [list(x) for x in sched.switches[:3]], 'finish', canon(sched.finish_step), 'hot_i', sched.hot_i)
         for name in names:
             if name in sched.errors:
                 res.violate(('C12/deadlock' if type(sched.errors[name]).__name__ == 'SimDeadlock' else 'C12/thread-raised:%s' % type(sched.errors[name]).__name__),
